@@ -882,6 +882,20 @@ impl<P: RuntimeProvider + Send + Sync> SqliteZoneHandler<P> {
                     // NONE     rrset    rr       Delete an RR from an RRset
                     let mut records = self.in_memory.records_mut().await;
                     if let Some(rrset) = records.get_mut(&rr_key) {
+                        // RFC 2136 3.4.2.4 protects the last NS RR only at the zone apex, while
+                        // `RecordSet::remove` never removes the last NS RR of any RRset: below
+                        // the apex, deleting the only NS RR deletes the RRset.
+                        if rr.record_type() == RecordType::NS
+                            && rr_name != *self.origin()
+                            && rrset.records_without_rrsigs().count() == 1
+                            && rrset.records_without_rrsigs().all(|r| r.data == rr.data)
+                        {
+                            info!("deleted last NS record below the apex: {rr:?}");
+                            records.remove(&rr_key);
+                            updated = true;
+                            continue;
+                        }
+
                         // b/c this is an Arc, we need to clone, then remove, and replace the node.
                         let mut rrset_clone: RecordSet = RecordSet::clone(&*rrset);
                         let deleted = rrset_clone.remove(rr, serial);
